@@ -51,10 +51,14 @@ func newChannelBroker(logger Logger) *channelBroker {
 // of connections and starts waiting for data on it.  Data is pushed onto the broker's
 // Response channel
 // Blocks until the context is done, the connection closes, or a critical error
-func (c *channelBroker) RegisterConn(ctx context.Context, conn *uacp.Conn, localCert []byte, localKey *rsa.PrivateKey) error {
+//
+// accept decides which security policy / mode pairs may open a secure channel
+// on this connection; nil accepts every pair.
+func (c *channelBroker) RegisterConn(ctx context.Context, conn *uacp.Conn, localCert []byte, localKey *rsa.PrivateKey, accept func(policyURI string, mode ua.MessageSecurityMode) bool) error {
 	cfg := defaultChannelConfig()
 	cfg.Certificate = localCert
 	cfg.LocalKey = localKey
+	cfg.AcceptSecurity = accept
 
 	c.mu.Lock()
 	c.secureChannelID++
